@@ -9,7 +9,8 @@ import re
 from vf import core, isa as isamod, gen_prog
 from vf.model import subst, expr as E
 
-BASES = ['FOO', 'BAR_', 'k_sz', 'Lim2', 'OPT', 'zeta', 'Q_9', 'vx']
+# ('B1' and 'ach' nearly read as numbers - b1 is one, ACH is one - but in these spellings they are names)
+BASES = ['FOO', 'BAR_', 'k_sz', 'Lim2', 'OPT', 'zeta', 'Q_9', 'vx', 'B1', 'ach']
 
 
 class C09(core.Check):
@@ -21,7 +22,7 @@ class C09(core.Check):
             'the symbol\'s own name before the definition (use before definition); double definitions across every pair of '
             'sources. Expected bytes = evaluate(substitute(line)). distinct_nontrivial = distinct (feature tag set) signatures.')
     rule = rule + ' ' + 'Whole-word occurrences between quotes (.cstr/.asciiz/.byte strings) are probed as well.'
-    assumptions = ('symbol names have >= 2 characters, contain a non-hex letter and never occur directly after "." / "$" (those '
+    assumptions = ('symbol names have >= 2 characters, are no numeric literals in their own spelling and never occur directly after "." / "$" (those '
                    'adjacency cases are not fixed by the statement); a whole-word occurrence between quotes is replaced like any other '
                    '("every whole-word occurrence"), probed only where the replaced text is made of word characters, operators and single blanks',
                    'an unused cyclic definition is DONT_CARE')
@@ -50,7 +51,8 @@ class C09(core.Check):
         pre_lines = []
 
         def neighbour(n):
-            k = rng.choice(['prefix', 'suffix', 'infix', 'case', 'case'])
+            # (the other-case spellings of B1 and ach are numbers, not names)
+            k = rng.choice(['prefix', 'suffix', 'infix', 'case', 'case'] if n not in ('B1', 'ach') else ['prefix', 'suffix', 'infix'])
             # (names are case sensitive: the same letters in the other case are another identifier)
             nm = {'prefix': n + 'BAR', 'suffix': 'X' + n, 'infix': 'A_' + n + '_B', 'case': n.swapcase()}[k]
             return nm, k
